@@ -9,7 +9,7 @@ use serde_json::{json, Value};
 
 pub const LEVEL: &str = "exploration";
 pub const EXHAUSTIVE: bool = true;
-pub const RULE: &str = "enumerated: ALL key histories of length <= L (quick L=4, thorough L=5) over a 20-symbol alphabet of the synthetic layout (ra, ka, a, i, aa-sign, i-sign, u-sign, au-sign, hasanta, chandrabindu, AU length mark, '!', digit, anusvara, ZWNJ, zo-fola, ro-fola, reph, ksha, backspace) x all 16 settings of {auto vowel, auto chandrabindu, traditional joining, old reph}, old vowel-sign order and suggestions off; plus generated histories of 5..24 keys over every key of both fixed layouts. Oracle: after every key the pre-edit text must equal compose_step(previous actual text, key value, options), a pure function transcribed from the statement's priority chain; the reph key under old reph is judged by C13's conservation/placement oracle; backspace removes one code point. Steps whose previous character has a class the statement leaves open are not judged (counted). Non-trivial: some step fired a rule other than plain append; distinct by (options, sequence of rules fired).";
+pub const RULE: &str = "enumerated: ALL key histories of length <= L (quick L=4, thorough L=5) over a 20-symbol alphabet of the synthetic layout (ra, ka, a, i, aa-sign, i-sign, u-sign, au-sign, hasanta, chandrabindu, AU length mark, '!', digit, anusvara, ZWNJ, zo-fola, ro-fola, reph, ksha, backspace) x all 16 settings of {auto vowel, auto chandrabindu, traditional joining, old reph}, old vowel-sign order and suggestions off; plus generated histories of 5..24 keys over every key of both fixed layouts. Oracle: after every key the pre-edit text must equal compose_step(previous actual text, key value, options), a pure function transcribed from the statement's priority chain; the reph key under old reph is judged by C13's conservation/placement oracle; backspace removes one code point. Steps whose previous character has a class the statement leaves open are not judged (counted). Non-trivial: some step fired a rule other than plain append; distinct by (options, sequence of rules fired). Plus: after a word typed under old vowel-sign order (3 preludes, with or without a sign still waiting) was ended in each of four ways and update-engine switched the order off, every two-key history over the alphabet (backspace included) is judged by the same rules.";
 pub const ASSUMPTIONS: &[&str] = &[
     "rule table written from the property statement (model::compose_step)",
     "punctuation class limited to undisputed members; ' & danda khanda-ta and Sanskrit vocalic letters are not judged as previous characters",
@@ -262,7 +262,94 @@ fn full_layout_triples(run: &Run) {
     );
 }
 
+/// One history of the part below.  `prelude` 0 = a left-standing sign alone, 1 = consonant + sign typed the old way (sign
+/// first), 2 = sign, consonant, sign (one placed, one waiting); `ending` 0 = commit, 1 = finish, 2 = ctrl-backspace,
+/// 3 = plain backspaces until nothing is left.
+fn after_old_order_case(ctx: &mut Ctx, sb: &Sandbox, bits: u32, prelude: u8, ending: u8, hist: &[usize], sig: &[(String, (u16, u8))]) -> Result<Vec<Rule>, Failure> {
+    let (off, f) = fixed_opts(bits);
+    let mut on = off;
+    on.karorder = true;
+    let names = |upto: usize| hist[..upto].iter().map(|&i| if i == sig.len() { "BS".to_string() } else { sig[i].0.clone() }).collect::<Vec<_>>();
+    let case = |upto: usize| json!({"after_old_order": {"bits": bits, "prelude": prelude, "ending": ending, "keys": names(upto)}});
+    let pf = |p: crate::driver::PanicInfo| Failure::new(panic_kind(&p), p.to_string(), case(hist.len()));
+    if ctx.ongoing() {
+        ctx.finish().map_err(pf)?;
+    }
+    ctx.update(on, sb).map_err(pf)?;
+    let (ka, i_kar) = (sig[1].1, sig[5].1);
+    let pre: &[(u16, u8)] = match prelude {
+        0 => &[i_kar],
+        1 => &[i_kar, ka],
+        _ => &[i_kar, ka, i_kar],
+    };
+    let mut typed = 0;
+    for (c, m) in pre {
+        ctx.key(*c, *m, 0).map_err(pf)?;
+        typed += 1;
+    }
+    match ending {
+        0 if ctx.ongoing() => ctx.commit(0).map_err(pf)?,
+        2 if ctx.ongoing() => {
+            ctx.backspace(true).map_err(pf)?;
+        }
+        3 => {
+            for _ in 0..(4 * typed + 2) {
+                if !ctx.ongoing() {
+                    break;
+                }
+                ctx.backspace(false).map_err(pf)?;
+            }
+        }
+        _ => ctx.finish().map_err(pf)?,
+    }
+    // commit, finish and ctrl-backspace end the word by contract: the front-end is idle now and does not ask
+    ctx.update(off, sb).map_err(pf)?;
+    let mut prev = String::new();
+    let mut rules = vec![];
+    for (step, &k) in hist.iter().enumerate() {
+        let r = if k == sig.len() { ctx.backspace(false) } else { ctx.key(sig[k].1 .0, sig[k].1 .1, 0) }.map_err(pf)?;
+        let value = if k == sig.len() { None } else { Some(sig[k].0.as_str()) };
+        match judge(&prev, value, &r.text, f) {
+            Ok(rule) => rules.push(rule),
+            Err(m) => return Err(Failure::new("composition-rule", format!("after a word typed under old vowel-sign order was ended and the option switched off: {m}"), case(step + 1))),
+        }
+        prev = r.text;
+    }
+    Ok(rules)
+}
+
+/// A word is typed under old vowel-sign order, ends (each of the four ways) with or without a sign still waiting for its
+/// consonant; update-engine switches the order option off (idle); then EVERY two-key history over the class alphabet
+/// (backspace included) is judged by the rules of the remaining options: nothing of the ended word may take part.
+fn after_a_word_under_old_vowel_sign_order(run: &Run) {
+    let sig = sigma();
+    let nk = sig.len() + 1;
+    let mut items = vec![];
+    for bits in run.tier.pick(vec![0u32, 1, 2, 7, 8, 15], (0..16).collect()) {
+        for prelude in 0..3u8 {
+            for ending in 0..4u8 {
+                items.push((bits, prelude, ending));
+            }
+        }
+    }
+    run.exhaustive("two-key-histories-after-a-word-under-old-vowel-sign-order", &items, |_| Sandbox::new(), |&(bits, prelude, ending), st, sb| {
+        let (off, _) = fixed_opts(bits);
+        let mut ctx = Ctx::new(off, sb).map_err(|p| Failure::new(panic_kind(&p), p.to_string(), json!({})))?;
+        for code in 0..nk * nk {
+            let hist = [code % nk, code / nk];
+            let rules = after_old_order_case(&mut ctx, sb, bits, prelude, ending, &hist, &sig)?;
+            st.evals(1);
+            st.label("history-after-old-order-word");
+            if prelude != 1 {
+                st.nontrivial(hash_of(&(bits, prelude, ending, &rules)), || json!({"bits": bits, "prelude": prelude, "ending": ending, "keys": hist.iter().map(|&i| if i == sig.len() { "BS".to_string() } else { sig[i].0.clone() }).collect::<Vec<_>>()}));
+            }
+        }
+        Ok(())
+    });
+}
+
 pub fn run(run: &Run) {
+    after_a_word_under_old_vowel_sign_order(run);
     full_layout_triples(run);
     exhaustive(run, run.tier.pick(4, 5));
     let cases = run.tier.pick(20000, 300000);
@@ -280,6 +367,14 @@ pub fn run(run: &Run) {
 }
 
 pub fn replay(_run: &Run, case: &Value) -> Result<(), Failure> {
+    if let Some(a) = case.get("after_old_order") {
+        let sig = sigma();
+        let bits = a["bits"].as_u64().unwrap_or(0) as u32;
+        let hist: Vec<usize> = a["keys"].as_array().map(|ks| ks.iter().map(|k| { let v = k.as_str().unwrap_or_default(); sig.iter().position(|(s, _)| s == v).unwrap_or(sig.len()) }).collect()).unwrap_or_default();
+        let sb = Sandbox::new();
+        let mut ctx = Ctx::new(fixed_opts(bits).0, &sb).map_err(|p| Failure::new(panic_kind(&p), p.to_string(), case.clone()))?;
+        return after_old_order_case(&mut ctx, &sb, bits, a["prelude"].as_u64().unwrap_or(0) as u8, a["ending"].as_u64().unwrap_or(0) as u8, &hist, &sig).map(|_| ());
+    }
     let opts = Opts::parse(case["opts"].as_str().unwrap_or_default());
     let f = FixedOpts { vowel: opts.vowel, chandra: opts.chandra, kar: opts.kar, reph: opts.reph };
     let sb = Sandbox::new();
